@@ -326,12 +326,9 @@ def check_C01(run):
     for i in (0, len(pool) // 2, len(pool) - 1):
         run.sample({"fen": pool[i]["fen"], "class": pool[i]["cls"], "implementation": impl[i][:300]})
     run.cov["good_pos_b_true_on_positions"] = ngood
-    run.cov["explanation"] = ("PARTIAL proof: closed lemmas are listed under 'theorems' (slider exactness C10, shift/ray characterisations); every generated move is "
-                              "proved sane (GenSane: our man on the origin, target not ours, ...) on positions passing good_pos_b, evaluated (true) on every position here; "
-                              "the king-safety half of soundness is proved for every block (C01_no_generated_move_leaves_the_king_attacked, under the invariant inv_b and the "
-                              "en-passant consistency ep_ok_b, both evaluated true on every position of D here); "
-                              "the full refinement movegen_exact (generator = rules on all of D) is stated in coq/props/C01.v but not proved as a whole (open: pseudo-legality by "
-                              "the rules' own lists, completeness); until then 'equals the rules' rests on this differential against the executable specification "
+    run.cov["explanation"] = ("proof on the model: C01_movegen_exact -- on every position satisfying the invariant inv_b and the en-passant consistency ep_ok_b (both "
+                              "evaluated true on every position of D here) a move is generated iff it encodes a legal move of the rules, and none twice; closed lemmas are "
+                              "listed under 'theorems'. The tie of that model to the Rust generator is this differential against the executable specification "
                               "spec/Rules.v (extracted), which is a test, not a proof")
 
 
